@@ -440,6 +440,31 @@ func (g *grammarCtx) block(stmts []ast.Stmt) []tok {
 				out = append(out, tok{Kind: "loop", Then: body, Pos: x.Pos()})
 			}
 		case *ast.RangeStmt:
+			// a loop over a literal list (`for _, v := range []uint64{a, b, c}`) is
+			// the listed values in order: unrolled, the loop variable standing for
+			// each element in turn
+			if lit, ok := ast.Unparen(x.X).(*ast.CompositeLit); ok && len(lit.Elts) > 0 && len(lit.Elts) <= 32 {
+				if vid, isId := x.Value.(*ast.Ident); isId && vid.Name != "_" {
+					old, had := g.locals[vid.Name]
+					for _, el := range lit.Elts {
+						if kv, isKV := el.(*ast.KeyValueExpr); isKV {
+							el = kv.Value
+						}
+						if f := g.fieldOf(el); f != "" {
+							g.locals[vid.Name] = f
+						} else {
+							g.locals[vid.Name] = exprStr(el)
+						}
+						out = append(out, g.block(x.Body.List)...)
+					}
+					if had {
+						g.locals[vid.Name] = old
+					} else {
+						delete(g.locals, vid.Name)
+					}
+					continue
+				}
+			}
 			body := g.block(x.Body.List)
 			if len(body) > 0 {
 				out = append(out, tok{Kind: "loop", Then: body, Pos: x.Pos()})
@@ -863,20 +888,19 @@ func (h H) headerLenAgrees(rule string) {
 		break
 	}
 	fn := h.fn("raft:isEntryBuffered")
-	fd := h.P.ASTFunc(fn)
-	info := h.P.TypesInfo("raft")
+	// the header length is what is peeked from the reader (a constant,
+	// however it is spelled: literal sum, local, named constants)
 	var got int64 = -1
-	ast.Inspect(fd.Body, func(n ast.Node) bool {
-		if as, ok := n.(*ast.AssignStmt); ok && len(as.Lhs) == 1 && len(as.Rhs) == 1 {
-			if id, ok := as.Lhs[0].(*ast.Ident); ok && id.Name == "headerLen" {
-				if tv, ok := info.Types[as.Rhs[0]]; ok && tv.Value != nil {
-					if v, ok := constant.Int64Val(tv.Value); ok {
-						got = v
-					}
-				}
+	core.Instrs(fn, func(in ssa.Instruction) {
+		c, ok := in.(*ssa.Call)
+		if !ok || c.Common().StaticCallee() == nil || c.Common().StaticCallee().String() != "(*bufio.Reader).Peek" || len(c.Common().Args) != 2 {
+			return
+		}
+		if k, ok := c.Common().Args[1].(*ssa.Const); ok && k.Value != nil {
+			if v, ok := constant.Int64Val(k.Value); ok {
+				got = v
 			}
 		}
-		return true
 	})
 	h.C.Check(rule, "isEntryBuffered.headerLen", okShape && got == sum, h.fpos(fn), fmt.Sprintf("the buffered-entry test assumes a %d byte header but the entry grammar has a fixed prefix of %d bytes (incl. the data length)", got, sum))
 }
